@@ -136,8 +136,16 @@ def strip(t, wrappers=("computed",), ext_wrappers=("asnumpy", "asarray", "comput
 class TermDomain(Domain):
     name = "terms"
 
-    def __init__(self, transparent_compute=True):
+    def __init__(self, transparent_compute=True, summarise=()):
         self.transparent_compute = transparent_compute
+        self.summarise = set(summarise)  # repo functions kept as uninterpreted symbols: f(args) -> T("call", ext f, args)
+
+    def call_repo(self, interp, funcs, bound, args, kwargs, node):
+        names = {f.name for f in funcs}
+        if len(names) == 1 and names <= self.summarise:
+            a, kw = self._args(args, kwargs)
+            return T("call", (T("ext", (next(iter(names)),)), a, kw))
+        return NotImplemented
 
     def seed_param(self, interp, fn, arg):
         return T("param", (arg.arg,))
